@@ -34,7 +34,8 @@ ASSUMPTIONS = ['slices are the resolved form every caller passes: 0 <= start < s
 SHARDS = {'quick': 4, 'thorough': 16}
 REQUIRED_CLASSES = {'implied-x': 1, 'explicit-x': 1, 'load-step>1': 1, 'load-spans>=2-records': 1, 'channel-subset-with-gap': 1,
                     'short-last-record': 1, 'multi-sample-channel': 1, 'dipmeter-channel': 1, 'tif': 1, '>=2-log-passes': 1,
-                    'load-enters-record-after-first-frame': 1, 'up-log': 1, 'empty-channel-subset': 1}
+                    'load-enters-record-after-first-frame': 1, 'up-log': 1, 'empty-channel-subset': 1,
+                    'type-0-and-type-1-log-pass-interleaved': 1, 'log-pass-without-data-records': 1}
 for _rc in (49, 50, 56, 66, 68, 70, 73, 77, 79):
     REQUIRED_CLASSES['rc-%d' % _rc] = 1
 
@@ -79,7 +80,7 @@ class PassModel:
         lp = p['lp']
         self.lp = lp
         self.n = len(lp['frames'])
-        self.matrix = np.array([decode_frame(lp, fr) for fr in lp['frames']], dtype=np.float64)
+        self.matrix = np.array([decode_frame(lp, fr) for fr in lp['frames']], dtype=np.float64) if lp['frames'] else np.zeros((0, 0))
         self.cols = channel_columns(lp)
         sign = -1 if lp['xs']['up_down'] == 1 else 1
         self.x = [lp['xs']['x0'] + sign * lp['xs']['spacing'] * f for f in range(self.n)]
@@ -103,6 +104,7 @@ class FileState:
         cfg = init['cfg']
         cc.cls('tif', cfg['tif'] != 'none')
         cc.cls('>=2-log-passes', len(self.passes) >= 2)
+        cc.cls('type-0-and-type-1-log-pass-interleaved', any(k == 'pass_pair' for k, _p in init['items']))
         for pm in self.passes:
             lp = pm.lp
             cc.cls('implied-x', lp['indirect'])
@@ -142,6 +144,9 @@ class FileState:
         for k, (lp, pm) in enumerate(zip(self.lps, self.passes)):
             if lp.totalFrames != pm.n:
                 cc.dev('index-log-passes', 'total-frames', 'log pass %d: totalFrames %r, written %d (per record %r)' % (k, lp.totalFrames, pm.n, pm.lp['per_record'][:10]))
+            if pm.n == 0:
+                cc.cls('log-pass-without-data-records')
+                continue
             x_first = pm.x[0] if pm.lp['indirect'] else pm.matrix[0, 0]
             if lp.xAxisFirstVal != x_first:
                 cc.dev('index-log-passes', 'first-x', 'log pass %d: first X %r, written %r' % (k, lp.xAxisFirstVal, x_first))
@@ -165,7 +170,7 @@ def step(s, op, cc):
     k = op['pass'] % len(s.passes)
     pm, lp = s.passes[k], s.lps[k]
     n = pm.n
-    if lp.totalFrames != n:
+    if lp.totalFrames != n or n == 0:
         return
     if op.get('all'):
         sl, rows = None, list(range(n))
@@ -276,7 +281,7 @@ class LoadMachine(HistoryMachine):
     START = staticmethod(start)
     STEP = staticmethod(step)
 
-    @initialize(init=G.lis_files(max_frames=50))
+    @initialize(init=G.lis_files(max_frames=50, pairs=True, empty_passes=True))
     def init(self, init):
         self.begin(init)
 
